@@ -416,4 +416,16 @@ def selectAltT (attrs : List (String × String)) (alts : List (Option Test × Na
   | [] => dflt
   | a :: rest => if altHolds attrs a then a.2 else selectAltT attrs rest dflt
 
+/-- With inherited attributes (XSD 1.1 `inheritable`, elements.py:1443-1450): an alternative applies when
+    its test holds on the element's own attributes OR on the inherited attributes overridden by the own
+    ones (`alt.test(elem) or alt.test(dummy)`); `attrVal` returns the first binding, so `own ++ inh`
+    is the overridden map. -/
+def altHoldsI (own inh : List (String × String)) (a : Option Test × Nat) : Bool :=
+  altHolds own a || altHolds (own ++ inh) a
+
+def selectAltI (own inh : List (String × String)) (alts : List (Option Test × Nat)) (dflt : Nat) : Nat :=
+  match alts with
+  | [] => dflt
+  | a :: rest => if altHoldsI own inh a then a.2 else selectAltI own inh rest dflt
+
 end XsVerif.Derivation
